@@ -381,6 +381,7 @@ def run_update_family(ctx, n_quick, n_thorough):
     g = max(n // 4, 40)
     out = core.pool_map(d.lookalike_update, [(ctx.seed, i, {}) for i in range(g)])
     out += core.pool_map(d.twin_update, [(ctx.seed, i, {}) for i in range(g)])
+    out += core.pool_map(d.self_above, [(ctx.seed, i, {}) for i in range(max(g // 2, 30))])
     out += core.pool_map(d.watermark_window, [(ctx.seed, i, {}) for i in range(max(g // 3, 20))])
     out += core.pool_map(d.canon_group, [(ctx.seed, i, {}) for i in range(g)])
     out += core.pool_map(d.transparent_group, [(ctx.seed, i, {}) for i in range(g)])
